@@ -6,6 +6,8 @@ open Strax Strax.Storage Strax.Driver
 
 /-! canonical text of metadata / files (same format as `checks/props/c03.py`) -/
 
+def showB (b : Bool) : String := if b then "1" else "0"
+
 def showIntOpt : Option Int → String
   | none => "-"
   | some v => toString v
@@ -14,16 +16,22 @@ def showIntOpt : Option Int → String
 def showInfo (c : ChunkInfo) : String :=
   "/".intercalate [toString c.i, toString c.n, toString c.start, toString c.stop, showStrOpt c.runId,
     showRunsOpt (c.subruns.map jsonRuns), showIntOpt c.firstTime, showIntOpt c.firstEnd, showIntOpt c.lastTime,
-    showIntOpt c.lastEnd, showStrOpt c.filename]
-
-def showB (b : Bool) : String := if b then "1" else "0"
+    showIntOpt c.lastEnd, showStrOpt c.filename, toString c.nbytes, showB c.filesize.isSome]
 
 def showMeta (m : Meta) : String :=
   s!"start={showIntOpt m.start} end={showIntOpt m.stop} we={showB m.writingEnded} exc={showB m.exception} chunks=" ++
   (if m.chunks.isEmpty then "-" else ";".intercalate (m.chunks.map showInfo))
 
+/-- the directory listing, sorted by name (a directory has no order) -/
 def showFiles (fs : Files) : String :=
+  let fs := fs.mergeSort (fun a b => decide (a.1 ≤ b.1))
   if fs.isEmpty then "-" else ";".intercalate (fs.map fun p => s!"{p.1}={showRows p.2}")
+
+/-- a completion order for `n` pending writes from a list of sort keys (used cyclically): the stable
+sort of `0 … n-1` by key — always a permutation -/
+def orderFromKeys (keys : List Nat) (n : Nat) : List Nat :=
+  let key (i : Nat) : Nat := if keys.isEmpty then i else keys.getD (i % keys.length) 0
+  (List.range n).mergeSort (fun a b => decide (key a ≤ key b))
 
 def modifyAt (l : List α) (k : Nat) (f : α → α) : List α :=
   l.zipIdx.map fun p => if p.2 = k then f p.1 else p.1
@@ -68,25 +76,35 @@ namespace Strax.Driver
 open Strax Strax.Storage Strax.Driver.C03
 
 /-- ops of property C03.
-`c03.rt <rechunk> <tamper> <runId> <dataType> <kind> <target> <pfx> <rawchunk>*` :
-save the chunks through `save_from`, tamper, load everything back.
+`c03.rt <rechunk> <saveExec> <loadExec> <orderKeys> <tamper> <runId> <dataType> <kind> <target> <itemsize> <pfx> <rawchunk>*` :
+save the chunks through `save_from` (serially, or through an executor whose writes complete in the
+order given by the keys), tamper, load everything back (serially, or with futures in chunk order).
  ok  → `ok <meta> ## <files> ## <ok chunks… | err Kind> ## law=<0|1> stor=<0|1>`
  err → `err <Kind> <meta> ## <files>` (what the failed saver left behind) -/
 def handleC03 : List String → Option String
-  | "c03.rt" :: rechunk :: tmp :: rid :: dt :: kind :: target :: pfx :: cs => do
+  | "c03.rt" :: rechunk :: sexec :: lexec :: okeys :: tmp :: rid :: dt :: kind :: target :: isz :: pfx :: cs => do
     let re ← parseBool rechunk
+    let sx ← parseBool sexec
+    let lx ← parseBool lexec
+    let keys ← parseNats okeys
     let tg ← target.toNat?
+    let isz ← isz.toNat?
     let cs ← cs.mapM parseRawChunk
-    let hdr : Header := { runId := rid, dataType := dt, kind := kind, target := tg, pfx := pfx }
+    let hdr : Header := { runId := rid, dataType := dt, kind := kind, target := tg, pfx := pfx, itemsize := isz }
     match rawChunksToChunks cs with
     | .error e => pure s!"err-construct {e.name}"
     | .ok cs =>
-      let (sv, e) := saveFrom Generated.getSplitsArgmin0 re hdr cs
+      let (sv, e) :=
+        if sx then
+          -- number of pending writes = number of files the serial saver leaves
+          let n := (saveFrom Generated.getSplitsArgmin0 re hdr cs).1.files.length
+          saveFromExec Generated.getSplitsArgmin0 re hdr cs (orderFromKeys keys n)
+        else saveFrom Generated.getSplitsArgmin0 re hdr cs
       match e with
       | some e => pure s!"err {e.name} {showMeta sv.md} ## {showFiles sv.files}"
       | none =>
         let (m, fs) ← tamper tmp sv.md sv.files
-        let loaded := showExcept showChunks (loadAll m fs)
+        let loaded := showExcept showChunks (if lx then loadAllExec m fs else loadAll m fs)
         let law := lawAbidingB cs
         let stor := cs.all (storableB rid)
         pure s!"ok {showMeta sv.md} ## {showFiles sv.files} ## {loaded} ## law={showB law} stor={showB stor}"
